@@ -105,15 +105,38 @@ class MachineModel:
         if circuit.num_qudits > self.num_qudits:
             return False
 
-        if any(g not in self.gate_set for g in circuit.gate_set):
+        # Barrier, measurement, and reset placeholders are not gates the
+        # machine has to implement, nor do they couple their qudits.
+        from bqskit.ir.gates.barrier import BarrierPlaceholder
+        from bqskit.ir.gates.measure import MeasurementPlaceholder
+        from bqskit.ir.gates.reset import Reset
+        placeholders = (BarrierPlaceholder, MeasurementPlaceholder, Reset)
+
+        if any(
+            g not in self.gate_set
+            for g in circuit.gate_set
+            if not isinstance(g, placeholders)
+        ):
             return False
 
         if placement is None:
             placement = list(range(circuit.num_qudits))
 
+        if any(isinstance(g, placeholders) for g in circuit.gate_set):
+            edges = {
+                (min(q0, q1), max(q0, q1))
+                for op in circuit
+                if not isinstance(op.gate, placeholders)
+                for q0 in op.location
+                for q1 in op.location
+                if q0 != q1
+            }
+        else:
+            edges = set(circuit.coupling_graph)
+
         if any(
             (placement[e[0]], placement[e[1]]) not in self.coupling_graph
-            for e in circuit.coupling_graph
+            for e in edges
         ):
             return False
 
